@@ -1084,11 +1084,14 @@ impl TDigestView<'_> {
         let first_mean = self.centroids[0].mean;
         if value < first_mean {
             if first_mean - self.min > 0. {
+                // a first centroid of a single value above min holds no sample between min and
+                // its mean (the minimum sits in a heavier centroid further right)
+                let half = self.centroids[0].weight() / 2.;
+                let base = half.min(1.);
                 return Some(if value == self.min {
                     0.5 / centroids_weight
                 } else {
-                    (1. + (fraction_between(self.min, first_mean, value)
-                        * ((self.centroids[0].weight() / 2.) - 1.)))
+                    (base + (fraction_between(self.min, first_mean, value) * (half - base)))
                         / centroids_weight
                 });
             }
@@ -1099,12 +1102,12 @@ impl TDigestView<'_> {
         let last_mean = self.centroids[num_centroids - 1].mean;
         if value > last_mean {
             if self.max - last_mean > 0. {
+                let half = self.centroids[num_centroids - 1].weight() / 2.;
+                let base = half.min(1.);
                 return Some(if value == self.max {
                     1. - (0.5 / centroids_weight)
                 } else {
-                    1.0 - ((1.0
-                        + (fraction_between(self.max, last_mean, value)
-                            * ((self.centroids[num_centroids - 1].weight() / 2.) - 1.)))
+                    1.0 - ((base + (fraction_between(self.max, last_mean, value) * (half - base)))
                         / centroids_weight)
                 });
             }
